@@ -85,7 +85,7 @@ def check_montgomery_result_length(ctx, res, config="all"):
     # n: the value the 2n-digit accumulator is sized from (a parameter, or a field of the reducer struct copied into a local)
     n_param = None
     for i, t in b.calls():
-        if callee_name(t) == "resize" and i in b.live_blocks() and len(t["args"]) >= 2 and t["args"][1]["k"] != "const":
+        if callee_name(t) in ("resize", "from_elem") and i in b.live_blocks() and len(t["args"]) >= 2 and t["args"][1]["k"] != "const":
             l_ = _copy_root(b, t["args"][1]["place"]["local"])
             for d in b.defs().get(l_, []):
                 cand = []
@@ -140,7 +140,7 @@ def check_montgomery_result_length(ctx, res, config="all"):
     # the accumulator is resized to n * 2
     acc = False
     for i, t in b.calls():
-        if callee_name(t) == "resize" and i in b.live_blocks():
+        if callee_name(t) in ("resize", "from_elem") and i in b.live_blocks() and len(t["args"]) >= 2:
             a = t["args"][1]
             if a["k"] != "const":
                 dd = b.defs().get(_copy_root(b, a["place"]["local"]), [])
@@ -158,7 +158,35 @@ def check_montgomery_result_length(ctx, res, config="all"):
                             ops = [rv["a"], rv["b"]]
                             if any(o["k"] == "const" and core.op_const(o) == 2 for o in ops) and any(o["k"] != "const" and _copy_root(b, o["place"]["local"]) == n_param for o in ops):
                                 acc = True
-    if stores and good == len(stores) and acc:
+    # the same cut done in place: truncate(n) keeps the low half, drain(..n) removes it - both leave n digits of the 2n
+    cuts = []
+    cut_bad = 0
+    for i, t in b.calls():
+        nm = callee_name(t)
+        if i not in b.live_blocks() or nm not in ("truncate", "drain") or len(t["args"]) < 2:
+            continue
+        a = t["args"][1]
+        ok_ = False
+        if nm == "truncate" and a["k"] != "const":
+            ok_ = _copy_root(b, a["place"]["local"]) == n_param
+        elif nm == "drain" and a["k"] != "const":
+            rd = b.defs().get(op_local(a), []) if op_local(a) is not None else []
+            ce = (t["func"].get("fn") or {}).get("full") or callee(t) or ""
+            if len(rd) == 1 and rd[0][0] == "assign" and rd[0][3]["rv"]["k"] == "aggregate" and rd[0][3]["rv"]["ops"] and "RangeTo" in (ce + str(b.local_ty(op_local(a)))):
+                bound = rd[0][3]["rv"]["ops"][0]
+                ok_ = bound["k"] != "const" and _copy_root(b, bound["place"]["local"]) == n_param
+        cuts.append(i)
+        if not ok_:
+            cut_bad += 1
+    if acc and cuts and not stores and cut_bad == 0:
+        # every return must pass one of the cuts
+        rets = b.return_blocks()
+        uncut = [r for r in rets if r in b.reachable(0, without_blocks=cuts)]
+        if not uncut:
+            res.ok("R11-montgomery-result-length", "montgomery", {"in_place_cuts": len(cuts), "accumulator": "2n"})
+            res.clause("R11: montgomery's result has exactly n digits (the 2n accumulator is cut at n on every path: to_vec of a half, truncate(n) or drain(..n))")
+            return
+    if stores and good == len(stores) and acc and cut_bad == 0:
         res.ok("R11-montgomery-result-length", "montgomery", {"stores_to_result_digits": len(stores), "accumulator": "resize(n * 2, 0)"})
     else:
         res.fail(Finding("R11-montgomery-result-length", "montgomery", "the result's digit vector is not on every path a slice of the 2n-digit accumulator cut at n (%d of %d stores recognised, accumulator 2n: %s): monty_modpow relies on n-digit results" % (good, len(stores), acc), b))
